@@ -15,7 +15,8 @@ package runner
 //   * writes one JSON line per run (configuration, event log, black-box observations) to $VERIF_OUT.
 //
 // Environment: VERIF_OUT, VERIF_SEED, VERIF_RUNS (random runs in addition to the fixed corpus x limits),
-// VERIF_TIMEOUT_MS (watchdog), VERIF_REPEAT (repetitions of the fixed corpus).
+// VERIF_TIMEOUT_MS (watchdog), VERIF_REPEAT (repetitions of the fixed corpus), VERIF_STRESS (extra runs of the
+// contention-heavy graphs on all CPUs).
 
 import (
 	"bufio"
@@ -122,6 +123,8 @@ func vcorpus() []*vgraph {
 		vg("cycle_through_unknown_is_none", 3, map[int][]int{0: {1}, 1: {2}, 2: {0}}).unk(2),
 		// the F11 shape of DESIGN section 5: R=0 P1=1 P2=2 L1=3 L2=4 A=5 B=6
 		vg("f11", 7, map[int][]int{0: {1, 2, 3, 4}, 3: {5, 1}, 1: {3}, 4: {6, 2}, 2: {4}, 5: {2}, 6: {1}}),
+		// fan-in: five targets request the same new label at the same moment (first-use race on the target map)
+		vg("fanin5", 7, map[int][]int{0: {1, 2, 3, 4, 5}, 1: {6}, 2: {6}, 3: {6}, 4: {6}, 5: {6}}),
 		// layered DAG (exponential for a walk without a visited set)
 		vg("layered", 8, map[int][]int{0: {1, 2}, 1: {3, 4}, 2: {3, 4}, 3: {5, 6}, 4: {5, 6}, 5: {7}, 6: {7}}),
 	}
@@ -704,6 +707,18 @@ func TestVerifRunner(t *testing.T) {
 			}
 			add(g, runtime.NumCPU(), true)
 		}
+	}
+	// contention stress: the graphs whose threads meet at the same label / at the gate, many times, all CPUs
+	stress := venvInt("VERIF_STRESS", 200)
+	byName := map[string]*vgraph{}
+	for _, g := range vcorpus() {
+		byName[g.name] = g
+	}
+	stressGraphs := []string{"fanin5", "fanin5", "layered", "shared", "fan6"}
+	for i := 0; i < stress; i++ {
+		g := byName[stressGraphs[i%len(stressGraphs)]]
+		id++
+		runs = append(runs, &vrun{id: id, g: g, k: []int{16, 4, 2}[i%3], profile: []int{0, 1, 0, 7}[i%4], procs: 16, seed: rng.Uint64()})
 	}
 	for i := 0; i < nrand; i++ {
 		g := vrandom(rng, i)
